@@ -13,7 +13,8 @@ func init() {
 		ID: "C19",
 		Explanation: "Structural necessary conditions of 'UUIDs parse, print and carry time faithfully; generated time-UUIDs are unique': R1 known-bits dataflow: at every successful return of TimeUUIDWith / RandomUUID the version nibble of byte 6 and the variant bits of byte 8 are the RFC 4122 values (stamping happens last); R2 the byte<->shift table with which TimeUUIDWith stores the 60-bit timestamp equals the table with which Timestamp() reads it; " +
 			"R3 the parser classifies the input rune itself against the three hexadecimal ranges, subtracts the matching base, writes u[j/2] only under j < 32 and accepts only j == 32 at the end; R4 the process-wide clock sequence is only touched through sync/atomic after init; R5 every generated time-UUID takes its clock value from a single atomic add on that sequence (never a plain load)." +
-			" R6 getTimestamp builds the tick count from Unix() seconds and Nanosecond() separately, never from UnixNano(); R7 MinTimeUUID / MaxTimeUUID pass the clock and node bytes that are extreme under Cassandra's signed byte order (80 80 .. 80 / bf 7f .. 7f).",
+			" R6 getTimestamp builds the tick count from Unix() seconds and Nanosecond() separately, never from UnixNano(); R7 MinTimeUUID / MaxTimeUUID pass the clock and node bytes that are extreme under Cassandra's signed byte order (80 80 .. 80 / bf 7f .. 7f)." +
+			" R8 UUID.Time builds the time from seconds (ticks/10^7 + base) and the sub-second remainder, never from one nanosecond count.",
 		NotDecided: "print/parse round trip for all 128-bit values; the min/max time-UUID ordering bounds; uniqueness across processes and clock regressions.",
 		Rules: []*Rule{
 			{ID: "C19.R1", Floor: 4, Doc: "version / variant bits are as RFC 4122 says at every success return (known-bits dataflow)", Run: c19r1},
